@@ -247,6 +247,28 @@ fn pow2(k: u32) -> U256 {
 /// Number spellings at the boundaries named in C17, as JSON text.
 pub fn boundary_number(rng: &mut Rng) -> String {
     let dec = |v: U256| v.to_string();
+    // a third of the draws sit within +-40 of a large boundary, in decimal or hex: off-by-a-few
+    // bounds (e.g. the EIP-155 limit (2^256-37)/2 = 2^255-19) are hit exactly
+    if rng.chance(1, 3) {
+        let base = match rng.below(6) {
+            0 => pow2(64),
+            1 => pow2(128),
+            2 => pow2(255),
+            3 => (U256::MAX - 36) / 2,
+            4 => U256::MAX - 40,
+            _ => pow2(255) - 19,
+        };
+        let d = U256::new(match rng.below(4) {
+            0 => rng.below(41),
+            _ => rng.below(4),
+        } as u128);
+        let v = if rng.coin() || base > U256::MAX - 41 { base - d.min(base) } else { base + d };
+        return match rng.below(3) {
+            0 => dec(v),
+            1 => format!("\"0x{v:x}\""),
+            _ => format!("\"{v}\""),
+        };
+    }
     match rng.below(22) {
         0 => "0".into(),
         1 => "1".into(),
@@ -866,4 +888,36 @@ pub fn gen_crash_case(rng: &mut Rng) -> CrashCase {
         }
     }
     CrashCase { family, cmd }
+}
+
+/// Enumerated: a legacy transaction whose chain id sits at the EIP-155 limit
+/// (2^256-37)/2 - 3 ..= +3, through every command that computes v, with both parities.
+pub const CHAIN_ENUM: usize = 7 * 8;
+
+pub fn chain_boundary_case(idx: usize) -> CrashCase {
+    let delta = (idx / 8) as i64 - 3;
+    let k = idx % 8;
+    let bound = (U256::MAX - 36) / 2;
+    let chain = if delta < 0 { bound - U256::new((-delta) as u128) } else { bound + U256::new(delta as u128) };
+    let spell = if k % 2 == 0 { format!("{chain}") } else { format!("\"0x{chain:x}\"") };
+    let tx = |nonce: usize| format!("{{\"chainId\":{spell},\"nonce\":{nonce},\"gasPrice\":1,\"gas\":21000,\"to\":\"0x0000000000000000000000000000000000000000\",\"value\":0,\"data\":\"0x\"}}");
+    let r = "11".repeat(32);
+    let sv = "22".repeat(32);
+    let mut cmd = Cmd::default();
+    match k {
+        0 | 1 => {
+            cmd.argv = vec!["hash".into(), "transaction".into(), "--signature".into(), format!("{r}{sv}1b"), "in.json".into()];
+            cmd.files.push(NamedFile { name: "in.json".into(), data: tx(0).into_bytes() });
+        }
+        2 | 3 => {
+            cmd.argv = vec!["hash".into(), "transaction".into(), "--signature".into(), format!("{r}{sv}1c"), "in.json".into()];
+            cmd.files.push(NamedFile { name: "in.json".into(), data: tx(0).into_bytes() });
+        }
+        _ => {
+            // signing: the parity depends on the message, so several nonces
+            cmd.argv = vec!["sign".into(), "--mnemonic".into(), GANACHE.into(), "transaction".into(), "in.json".into()];
+            cmd.files.push(NamedFile { name: "in.json".into(), data: tx(k - 4 + 2 * (idx / 8)).into_bytes() });
+        }
+    }
+    CrashCase { family: "transaction".into(), cmd }
 }
